@@ -106,3 +106,27 @@ prop("C14", "proof",
      ],
      trusted=["strdup_printf (librfn/string.c: vsnprintf + malloc) is external and stubbed; CBMC models of malloc/memcpy/memset/memcmp"],
      assumptions=["the callees of pack.c are inlined in the decode harnesses (their own contracts are enforced under C12)"])
+
+# ---------------------------------------------------------------------------- C13
+WV = "harness/C13_wavheader.c"
+prop("C13", "proof",
+     "Contracts on rf_wavheader_init / set_num_frames / encode / decode (DESIGN 5.C13), split so that no query mixes the products with the codec: "
+     "init on a structure with arbitrary prior contents establishes the init shape (no stale field) and the field identities; set_num_frames from any "
+     "init-shaped header with consistent sizes establishes data size and RIFF size (re-establishing its own precondition, so repeated calls are covered); "
+     "any init-shaped header with arbitrary numeric fields validates and round-trips through the real encode/decode field-wise with equal lengths; "
+     "any byte string (symbolic length < 2^31) that decodes successfully is reproduced byte-for-byte by re-encoding, proved for one arbitrary watched byte index.",
+     [
+     ] + [
+      H("init_" + nm, WV, "h_init", ["rf_wavheader_init", "rf_wavheader_validate", "rf_wavheader_get_format"], enforce=["rf_wavheader_init"],
+        defs=["-DFIXFMT=%d" % k], solvers=("cadical",), timeout=900, unwind=97, note="format " + nm) for k, nm in enumerate(["S16LE", "S32LE", "FLOAT"])
+     ] + [
+      H("set_num_frames", WV, "h_set_num_frames", ["rf_wavheader_set_num_frames"], enforce=["rf_wavheader_set_num_frames"],
+        solvers=("cadical", "cvc5", "z3"), timeout=600, unwind=97),
+      H("roundtrip", WV, "h_roundtrip", ["rf_wavheader_encode", "rf_wavheader_decode", "rf_wavheader_validate"],
+        solvers=("cadical", "minisat"), timeout=600, unwind=97),
+      H("encode", WV, "h_roundtrip", ["rf_wavheader_encode"], enforce=["rf_wavheader_encode"], solvers=("cadical", "minisat"), timeout=600, unwind=97, cover=False),
+      H("decode_first", WV, "h_decode_first", ["rf_wavheader_decode", "rf_wavheader_encode"], solvers=("cadical", "minisat"), timeout=900, unwind=97),
+     ],
+     trusted=["CBMC models of malloc/memcpy/memset/memcmp"],
+     assumptions=["'within 32-bit size limits' is read as: every size field of the header can hold its value (block_align 16 bits, byte_rate / data size / RIFF size 32 bits)",
+                  "pack.c callees are inlined in these harnesses (their contracts are enforced under C12)"])
